@@ -16,7 +16,7 @@ def nontrivial(kind, st, r):
         return g("m") >= 2 and g("reach") >= 2
     if kind in ("dfs", "kahn", "scc", "topo"):
         return g("n") >= 3 and g("m") >= 2
-    if kind in ("convseq", "race", "redefgen"):
+    if kind in ("convseq", "race", "redefgen", "alias"):
         return True
     if kind in ("sig", "vset", "opts", "result"):
         return g("size", 1) >= 1
@@ -147,8 +147,8 @@ PROPS = {
                  "thorough": [fam("call", 50000, 0, "fail"), fam("call", 20000, 0, "general")]},
     },
     "C05": {
-        "claim": "(theorems pending) Chaining is complete and the outcome stable on well-behaved converter sets. Tied to the code by trace conformance on acyclic-satisfiable and single-input-cyclic families, 8 repetitions per scenario; completeness is judged against the matching table, with the table-but-not-library matches (gaps G1-G5) listed as known findings.",
-        "note": "", "theorems": [], "facts": {"r5SkipSame": "true", "r6NameTest": "true", "publishAfterUpdate": "true", "trackReaching": "true", "takeValuedNamed": "true", "memoCopy": "true"},
+        "claim": "Theorems for the subtype-free fragment, every oracle: complete_single (single-input converters, cycles allowed: once callGraph finds every parameter reachable the call ends in success or in a function body's own error) and stable (the outcome class does not depend on the oracle). Subtypes and the multi-input acyclic clause by exploration. Chaining is complete and the outcome stable on well-behaved converter sets. Tied to the code by trace conformance on acyclic-satisfiable and single-input-cyclic families, 8 repetitions per scenario; completeness is judged against the matching table, with the table-but-not-library matches (gaps G1-G5) listed as known findings.",
+        "note": "", "theorems": ["ArgMapper.C05.complete_single", "ArgMapper.C05.stable", "ArgMapper.C05.newFunc_setsWF", "ArgMapper.C05.counterexample_duplicate_named_key", "ArgMapper.C05.counterexample_values_without_struct"], "facts": {"r5SkipSame": "true", "r6NameTest": "true", "publishAfterUpdate": "true", "trackReaching": "true", "takeValuedNamed": "true", "memoCopy": "true"},
         "rule": "call: at least one function executed, or an unsatisfied error with a converter present.",
         "runs": {"quick": [fam("call", 300, 0, "single"), fam("call", 300, 0, "acyclic")],
                  "thorough": [fam("call", 30000, 0, "single"), fam("call", 30000, 0, "acyclic")]},
